@@ -38,7 +38,11 @@ out = ['Sub-agents that saw only the property text and a scratch worktree produc
        'segment ends, C10-10 azimuth sweeps containing phi and -phi, C13-9 arcs whose count makes a floating-point `arange` overshoot, C19-9 the media block of '
        'the report with three media, C19-10 the connection columns of grounded pulses under tags that are not positions, C20-9 downward sweeps that reach 0 MHz, '
        'C20-10 an output path that is a directory (and the OSError subclasses in the translator of `main`, so that a narrowed handler is an unsafe site with a '
-       'named line rather than a translator failure).  After that every seed but the obsolete C20-2 is reported with a concrete failing input.', '',
+       'named line rather than a translator failure).  Seventh round (after the models of the media options, the ENVIRONMENT block and the connection columns were added): '
+       'Cxx-11, Cxx-12 for C15 and C19, the sub-agents asked to aim one change each at media / report sections.  C15-12 was caught as the checks stood; C15-11 (an interface '
+       'coordinate of exactly 0 treated as not given) needed coordinates 0 and below in the generator of the `media` stage, C19-12 (type of boundary taken from the radial '
+       'screen) the VALUE of the boundary line in `Model/Env.v` (it had only the presence of the line), C19-11 (END CONNECTION of the per-object table from the position) '
+       'the per-object table in the report oracle.  After that every seed but the obsolete C20-2 is reported with a concrete failing input.', '',
        '| seed | change (summary of the sub-agent) | result of the quick check |', '|------|------|------|'] + rows
 txt = '\n'.join(out)
 p = os.path.join(ROOT, 'DESIGN.md')
